@@ -75,7 +75,7 @@ def main():
                 "engine": "vcheck",
                 "level_claimed": {"category": "exploration", "text": text, "design_ref": ref},
                 "level_note": note,
-                "technique": t,
+                "technique": t + ("" if i == "C18" else "; the whole monitor repeats itself in a child process built for GOARCH=386 (32-bit int/uint) with GOGC=10"),
             })
         else:
             na.append({"property_id": i, "reason": "monitor not built yet (see DESIGN.md section 5); will be claimed once ./check %s exists" % i})
